@@ -156,10 +156,20 @@ def norm(frames, fast):
     return [bytes([f[0] & 0x1F]) + f[1:] for f in frames]
 
 
-def concurrent_session(kind, msgs, pause_plan, stagger):
+def concurrent_session(kind, msgs, pause_plan, stagger, after_reconnect=False):
     async def scenario(sim):
         sim.spawn("connect")
         await asyncio.sleep(0.1)
+        if after_reconnect:
+            # the sends happen on the client's second connection (first link lost, reconnected)
+            first = sim.conns[-1]
+            first.reset(simgw.serial_loss_exception() if kind == "waveshare" else ConnectionResetError(104, "reset by peer"))
+            for _ in range(3000):
+                if len(sim.conns) > 1 and sim.client.state.name == "CONNECTED":
+                    break
+                await asyncio.sleep(0.01)
+            await asyncio.sleep(0.1)
+            sim.first_conn_writes = len(first.written)
         conn = sim.conns[-1]
         base = len(conn.written)
         conn.pause_plan = list(pause_plan)
@@ -175,14 +185,22 @@ def concurrent_session(kind, msgs, pause_plan, stagger):
     return simgw.run_session(kind, scenario)
 
 
-def judge_concurrent(sim, stats, kind, msgs, pause_plan, stagger, acc, fast_of):
+def judge_concurrent(sim, stats, kind, msgs, pause_plan, stagger, acc, fast_of, after_reconnect=False):
     acc.count("sessions")
     acc.count("concurrent_send_sessions")
     w = {"client": kind, "messages": [[m.PGN, m.source] for m in msgs], "pause_plan": list(pause_plan)[:40], "stagger": list(stagger)}
     if stats["error"]:
         acc.inconclusive_because(f"simulator: {stats['error']}")
         return
-    conn = sim.conns[0]
+    conn = sim.conns[-1] if after_reconnect else sim.conns[0]
+    if after_reconnect:
+        acc.count("sessions_sending_on_second_connection")
+        w["after_reconnect"] = True
+        if len(sim.conns) < 2:
+            acc.inconclusive_because(f"{kind}: no second connection was opened in the after-reconnect session (C13 judges recovery)")
+            return
+        if len(sim.conns[0].written) != sim.first_conn_writes:
+            acc.violation("packets-written-to-a-replaced-link", f"{kind}: bytes were written to the first (lost) connection after the reconnect", w)
     log = b"".join(d for _, d in conn.written[sim.sent_from:])
     paused = sum(1 for p in pause_plan if p)
     acc.case((kind, tuple((m.PGN, m.source) for m in msgs), tuple(pause_plan), tuple(stagger)) if (len(msgs) >= 2 and paused) else None)
@@ -196,8 +214,9 @@ def judge_concurrent(sim, stats, kind, msgs, pause_plan, stagger, acc, fast_of):
     runs = [k for k, _ in itertools.groupby(order)]
     if len(runs) != len(set(runs)):
         acc.violation("packets-of-concurrent-sends-interleaved", f"{kind}: packets of concurrent send() calls interleave on the wire (sources in wire order: {runs[:12]}...)", w)
-    if len(sim.status) != 2 or sim.status[0] != "CONNECTED":
-        acc.violation("state-disturbed-by-send", f"{kind}: status trace {sim.status} around plain sends", w)
+    want_status = ["CONNECTED", "DISCONNECTED", "CONNECTED", "CLOSED"] if after_reconnect else ["CONNECTED", "CLOSED"]
+    if sim.status != want_status:
+        acc.violation("state-disturbed-by-send", f"{kind}: status trace {sim.status} around plain sends (expected {want_status})", w)
     if paused and len(msgs) <= 4:
         acc.sample({"client": kind, "messages": [[m.PGN, m.source] for m in msgs], "pause_plan": list(pause_plan)[:16], "stagger": list(stagger),
                     "sources_in_wire_order": order[:40], "status_trace": sim.status}, cap=6)
@@ -248,8 +267,9 @@ def run_concurrent(spec, acc):
             msgs = make_messages(dbx, rng, rng.randint(2, 4), box)
             plan = [rng.choice([0, 0, 1, 2, 5]) for _ in range(120)]
             stagger = [rng.choice([0, 0, 1, 2, 7]) for _ in msgs]
-            sim, stats = concurrent_session(kind, msgs, plan, stagger)
-            judge_concurrent(sim, stats, kind, msgs, plan, stagger, acc, fast_of)
+            ar = rep % 3 == 2
+            sim, stats = concurrent_session(kind, msgs, plan, stagger, after_reconnect=ar)
+            judge_concurrent(sim, stats, kind, msgs, plan, stagger, acc, fast_of, after_reconnect=ar)
             if rep % 10 == 0:
                 acc.sample({"client": kind, "messages": [[m.PGN, m.source, len(reference_packets(kind, m))] for m in msgs], "pause_plan": plan[:12], "stagger": stagger})
     finally:
